@@ -160,7 +160,8 @@ def _run(stmts: List[ast.stmt], env: Dict[str, ast.AST]) -> Tuple[Dict[str, ast.
             if inner is not None and outer is not None and _is_const(inner, False) and _is_const(outer, True):
                 return env, ast.Call(func=ast.Name(id='all', ctx=ast.Load()), args=[gen(ast.UnaryOp(op=ast.Not(), operand=cond))], keywords=[])
             raise NotSummarisable('search loop with non-boolean results')
-        if isinstance(s, ast.Try) and not s.finalbody and not s.orelse and s.handlers and all(h.body and isinstance(h.body[-1], ast.Raise) for h in s.handlers):
+        if isinstance(s, ast.Try) and not s.finalbody and not s.orelse and s.handlers and all(h.body and isinstance(h.body[-1], ast.Raise) for h in s.handlers) \
+                and not any(isinstance(x, ast.Return) for h in s.handlers for x in ast.walk(h)):
             # try: <body> except E: ... raise: what is returned comes from the body (the handlers only raise)
             env_b, rb = _run(s.body, env)
             if rb is not None:
